@@ -20,30 +20,32 @@ Schedules are arbitrary functions: `S sid t` is `Schedule.Next(t)` of the schedu
 -/
 namespace Kit.CronSched
 
+/-- Times are natural numbers (`0` = Go's zero `time.Time`); written `Nat` below so that
+`omega` sees them. -/
 abbrev Time := Nat
 
 /-- `Schedule.Next` for every schedule index. -/
-abbrev Scheds := Nat → Time → Time
+abbrev Scheds := Nat → Nat → Nat
 
 /-- cron.go:69 `Entry` (ID, Schedule, Next, Prev). -/
 structure Entry where
   id : Nat
   sid : Nat
-  next : Time
-  prev : Time
+  next : Nat
+  prev : Nat
   deriving Repr, DecidableEq
 
 /-- A `clock.Timer` created by `c.clk.NewTimer(d)`; `armedAt` is the clock value at creation
 (ghost, used only by theorems), `fired` the value sitting in / taken from its 1-slot channel. -/
 structure Timer where
-  armedAt : Time
-  deadline : Time
-  fired : Option Time
+  armedAt : Nat
+  deadline : Nat
+  fired : Option Nat
   deriving Repr, DecidableEq
 
 /-- Timer semantics shared with the harness clock: a timer fires as soon as `now ≥ deadline`
 and sends the clock value of that instant; a fired timer keeps its value. -/
-def Timer.tick (tm : Timer) (t : Time) : Timer :=
+def Timer.tick (tm : Timer) (t : Nat) : Timer :=
   match tm.fired with
   | some _ => tm
   | none => if tm.deadline ≤ t then { tm with fired := some t } else tm
@@ -67,14 +69,14 @@ inductive JobSt where
   /-- `startJob` ran (`jobWaiter.Add(1)`, `go func`) — the job function has not begun yet -/
   | launched
   /-- the job function is running; it read the clock value `c` when it began -/
-  | begun (c : Time)
+  | begun (c : Nat)
   deriving Repr, DecidableEq
 
 /-- An outstanding job goroutine (counted by `jobWaiter`). -/
 structure Job where
   eid : Nat
-  act : Time
-  wake : Time
+  act : Nat
+  wake : Nat
   st : JobSt
   deriving Repr, DecidableEq
 
@@ -100,24 +102,24 @@ def Rec.sid : Rec → Nat
   | .sched _ sid _ _ => sid
   | .run _ sid _ _ _ => sid
 /-- the argument from which the entry's *following* `Next` was computed -/
-def Rec.basis : Rec → Time
+def Rec.basis : Rec → Nat
   | .sched _ _ t _ => t
   | .run _ _ _ w _ => w
 def Rec.isRun : Rec → Bool
   | .run .. => true
   | _ => false
 /-- the activation a `run` record launched (0 for `sched`) -/
-def Rec.act : Rec → Time
+def Rec.act : Rec → Nat
   | .run _ _ a _ _ => a
   | _ => 0
 
 structure State where
-  clock : Time
+  clock : Nat
   running : Bool
   nextID : Nat
   entries : List Entry
   /-- the loop variable `now` of `run()` -/
-  now : Time
+  now : Nat
   pc : Pc
   jobs : List Job
   ctxs : List CtxSt
@@ -125,7 +127,7 @@ structure State where
   log : List Rec
   deriving Repr, DecidableEq
 
-def init (t0 : Time) : State :=
+def init (t0 : Nat) : State :=
   { clock := t0, running := false, nextID := 0, entries := [], now := 0, pc := .off,
     jobs := [], ctxs := [], log := [] }
 
@@ -135,7 +137,7 @@ inductive Label where
   | snapshot
   | stop
   | start
-  | advance (t : Time)
+  | advance (t : Nat)
   | boot
   | refresh
   | arm
@@ -165,7 +167,7 @@ def sortBT : List Entry → List Entry
 
 /-- `for _, e := range c.entries { if e.Next.After(now) || e.Next.IsZero() { break } … }`.
 Returns the updated entries and the entries (old values) whose job was started. -/
-def wakeLoop (S : Scheds) (now : Time) : List Entry → List Entry × List Entry
+def wakeLoop (S : Scheds) (now : Nat) : List Entry → List Entry × List Entry
   | [] => ([], [])
   | e :: rest =>
     if now < e.next ∨ e.next = 0 then (e :: rest, [])
@@ -173,12 +175,12 @@ def wakeLoop (S : Scheds) (now : Time) : List Entry → List Entry × List Entry
       let r := wakeLoop S now rest
       ({ e with prev := e.next, next := S e.sid now } :: r.1, e :: r.2)
 
-def launchJob (w : Time) (e : Entry) : Job := { eid := e.id, act := e.next, wake := w, st := .launched }
-def runRec (w c : Time) (e : Entry) : Rec := .run e.id e.sid e.next w c
-def schedRec (t : Time) (e : Entry) : Rec := .sched e.id e.sid t e.next
+def launchJob (w : Nat) (e : Entry) : Job := { eid := e.id, act := e.next, wake := w, st := .launched }
+def runRec (w c : Nat) (e : Entry) : Rec := .run e.id e.sid e.next w c
+def schedRec (t : Nat) (e : Entry) : Rec := .sched e.id e.sid t e.next
 
 /-- Arming (cron.go:277-284). -/
-def armTimer (clock now : Time) : List Entry → Option Timer
+def armTimer (clock now : Nat) : List Entry → Option Timer
   | [] => none
   | e :: _ =>
     if e.next = 0 then none
@@ -291,7 +293,7 @@ def runFrom (S : Scheds) (s : State) : List Label → Option State
 
 /-- States reachable from some initial clock value. -/
 inductive Reach (S : Scheds) : State → Prop where
-  | init (t0 : Time) : Reach S (init t0)
+  | init (t0 : Nat) : Reach S (init t0)
   | step {s s' : State} (l : Label) : Reach S s → step S s l = some s' → Reach S s'
 
 /-- Labels of the scheduler goroutine and the Stop-context goroutines (not controlled by callers). -/
